@@ -1034,6 +1034,7 @@ def normalise(M, fn, subst: bool = False, guards: bool = False, keep=(), comps: 
     if ifexp:
         _if_to_ifexp(node)
     if comps:
+        _split_tuple_assigns(node)
         _loops_to_comps(node)
     if subst or closures:
         _inline_closures(node, [])
